@@ -228,7 +228,12 @@ PROPS = {
                   # shared loader hands out for a name must not depend on the loader's history
                   K("loader.py::cache.load"), K("zpt/loader.py::TemplateLoader.load"),
                   K("loader.py::TemplateLoader.load"), K("parser.py::ElementParser.__init__"),
-                  K("loader.py::ModuleLoader._load")],
+                  K("loader.py::ModuleLoader._load"),
+                  # ... and what one instance compiles for a body must not depend on the bodies it was
+                  # given before: content type and encoding are decided from the document and the
+                  # configured defaults alone
+                  K("template.py::BaseTemplate.write@str"), K("template.py::BaseTemplate.write@bytes"),
+                  K("template.py::BaseTemplateFile.read@body"), K("zpt/template.py::PageTemplate.parse")],
         "not_decided": ["thread interleavings (schedule-quantified; no schedule exploration in this family)",
                         "cross-process identity of output (follows from alpha-equivalence of generated "
                         "code; not checked yet)"],
